@@ -1,0 +1,79 @@
+//go:build verif
+
+package yang
+
+import (
+	"fmt"
+	"sort"
+	"sync/atomic"
+)
+
+// This file exists only with the "verif" build tag. It lets external
+// verification machinery observe events inside the package and take snapshots
+// of unexported tables at quiescent points. Nothing here changes behaviour.
+
+const verifEnabled = true
+
+type verifSinkFn struct {
+	f func(ev string, kv ...string)
+}
+
+type verifYieldFn struct{ f func(point string) }
+
+var (
+	verifSink    atomic.Value // verifSinkFn
+	verifYielder atomic.Value // verifYieldFn
+)
+
+// VerifSetSink installs the receiver of hook events (nil removes it). The
+// receiver must be safe for concurrent use.
+func VerifSetSink(f func(ev string, kv ...string)) { verifSink.Store(verifSinkFn{f}) }
+
+// VerifSetYield installs a function called at the yield points.
+func VerifSetYield(f func(point string)) { verifYielder.Store(verifYieldFn{f}) }
+
+func verifEmit(ev string, kv ...string) {
+	if s, ok := verifSink.Load().(verifSinkFn); ok && s.f != nil {
+		s.f(ev, kv...)
+	}
+}
+
+func verifYield(point string) {
+	if y, ok := verifYielder.Load().(verifYieldFn); ok && y.f != nil {
+		y.f(point)
+	}
+}
+
+// VerifTypedefKeys returns a sorted snapshot of the typedef dictionary:
+// "<kind of defining node> <its name> @<its location> / <typedef name>".
+func (ms *Modules) VerifTypedefKeys() []string {
+	d := ms.typeDict
+	d.mu.Lock()
+	defer d.mu.Unlock()
+	var out []string
+	for n, tds := range d.dict {
+		for name := range tds {
+			out = append(out, fmt.Sprintf("%s %s @%s / %s", n.Kind(), n.NName(), Source(n), name))
+		}
+	}
+	sort.Strings(out)
+	return out
+}
+
+// VerifIdentityKeys returns the sorted keys of the identity dictionary.
+func (ms *Modules) VerifIdentityKeys() []string {
+	d := &ms.typeDict.identities
+	d.mu.Lock()
+	defer d.mu.Unlock()
+	var out []string
+	for k := range d.dict {
+		out = append(out, k)
+	}
+	sort.Strings(out)
+	return out
+}
+
+// VerifParseChildRanges exports YangRange.parseChildRanges.
+func VerifParseChildRanges(parent YangRange, s string, decimal bool, fracDig uint8) (YangRange, error) {
+	return parent.parseChildRanges(s, decimal, fracDig)
+}
